@@ -79,7 +79,12 @@ class FactFlow:
         if isinstance(a, (ast.AugAssign, ast.AnnAssign)):
             names = set()
             _targets(a.target, names)
-            return self._kill(facts, names)
+            keep = None
+            if isinstance(a, ast.AugAssign) and isinstance(a.op, ast.Add) and isinstance(a.target, ast.Name) \
+                    and (a.target.id, True) in facts:
+                keep = (a.target.id, True)              # x += y keeps a non-empty x non-empty
+            facts = self._kill(facts, names)
+            return facts | {keep} if keep else facts
         if isinstance(a, (ast.FunctionDef, ast.AsyncFunctionDef, ast.ClassDef)):
             return self._kill(facts, {a.name})
         if isinstance(a, ast.Delete):
